@@ -12,6 +12,10 @@
                        length, close), and no call started after a call has failed for a reason
                        other than its own undecodable body succeeds
      no_hang           every call and Close return (watchdog), no_panic: without panicking
+     read_timeout_honoured  a call whose request the server leaves unanswered is back (with an
+                       error) about Net.ReadTimeout after it was written, although other
+                       requests keep being written on the connection - not WriteTimeout after
+                       the last write (bound: harness, load-aware; premise: this trace)
      inflight_bound    at no time more than Net.MaxOpenRequests requests have been received
                        by the server and are still unanswered. Counted only over requests
                        whose call later returned its response (so the connection was
@@ -44,7 +48,7 @@ Fresh(max) == [max |-> max,
 
 Init == l = 1 /\ viol = {} /\ feat = {} /\ st = Fresh(0)
         /\ stats = [traces |-> 0, calls |-> 0, ok |-> 0, err |-> 0, frames |-> 0, faulty |-> 0,
-                    at_bound |-> 0, over_bound |-> 0, max_excess |-> 0]
+                    rt_checks |-> 0, at_bound |-> 0, over_bound |-> 0, max_excess |-> 0]
 
 Remove(s, tag) == SelectSeq(s, LAMBDA x : x.tag # tag)
 MaxOf(S) == CHOOSE x \in S : \A y \in S : y <= x
@@ -110,6 +114,25 @@ TPanic ==
   /\ viol' = viol \cup V("no_panic")
   /\ UNCHANGED <<feat, st, stats>>
 
+\* a request without response (acks = 0): it only has to return
+TFire ==
+  /\ E.ev \in {"fire_start", "fire_ret"}
+  /\ viol' = viol \cup When(E.ev = "fire_ret" /\ E.err = "hang", "no_hang")
+                  \cup When(E.ev = "fire_ret" /\ E.err = "panic", "no_panic")
+  /\ UNCHANGED <<feat, st, stats>>
+
+\* write-deadline family: the harness reports that its load-aware bound (a generous multiple of
+\* Net.ReadTimeout = E.n ms, far below Net.WriteTimeout / the duration of the continuing writes) has
+\* expired. Violated when, by THIS trace, the call was started, its request reached the server, the
+\* server has sent nothing at all since (silence), and the call has not returned.
+TRtCheck ==
+  /\ E.ev = "rt_check"
+  /\ LET silentFor == \E k \in DOMAIN st.outst : st.outst[k].tag = E.tag
+         waiting == E.tag \in st.started \ st.returned
+     IN /\ viol' = viol \cup When(E.kind # "starved" /\ silentFor /\ waiting /\ ~st.faulted, "read_timeout_honoured")
+        /\ stats' = [stats EXCEPT !.rt_checks = @ + 1]
+  /\ UNCHANGED <<feat, st>>
+
 TClose ==
   /\ E.ev \in {"close_start", "close_ret"}
   /\ viol' = viol \cup When(E.ev = "close_ret" /\ E.err = "hang", "no_hang")
@@ -142,7 +165,7 @@ TEnd ==
 
 Next == /\ l <= Len(Trace)
         /\ l' = l + 1
-        /\ (TReset \/ TCallStart \/ TSrvRecv \/ TSrvSend \/ TCallRet \/ TClose \/ TPanic \/ TDone \/ TEnd)
+        /\ (TReset \/ TCallStart \/ TSrvRecv \/ TSrvSend \/ TCallRet \/ TClose \/ TFire \/ TRtCheck \/ TPanic \/ TDone \/ TEnd)
 Spec == Init /\ [][Next]_vars
 Accepted == TLCGet("stats").diameter - 1 = Len(Trace)
 =============================================================================
